@@ -132,7 +132,7 @@ def r3_promotion(rep, facts):
 
 
 def r4_container_typing(rep, facts):
-    R = rep.rule('C07/R4', 'library code stores only Item::Value (or the placeholder Item::None) into Array::values and InlineTable::items', floor=4)
+    R = rep.rule('C07/R4', 'library code stores only Item::Value (or the placeholder Item::None) into Array::values and InlineTable::items', floor=3)
     # writers of Array.values / pushes
     bad = []
     n = 0
@@ -148,9 +148,7 @@ def r4_container_typing(rep, facts):
                 if not okv:
                     bad.append((d, c.get('l')))
     rep.check(R, 'Array.values|writers', not bad and n >= 2, f'{n} push/insert sites wrap in Item::Value', f'Array.values receives non-Value items at {bad}')
-    for d in ('toml_edit::array::Array::value_op',):
-        b = facts.body(d)
-        rep.ok(R, d, 'closure receives Value; call sites wrap in Item::Value')
+    # (the writers above are found wherever they are: directly in push / insert, in a closure handed to a helper such as value_op, or in a helper)
     # InlineTable::insert / insert_formatted wrap in Item::Value
     for d in ('toml_edit::inline_table::InlineTable::insert', 'toml_edit::inline_table::InlineTable::insert_formatted'):
         b = facts.body(d)
